@@ -195,6 +195,10 @@ def harness(eng, fam, P):
             # of the rejected attempt carries the same key as the real one
             ('BF', 'o/r', {'mode': 'ok', 'name': 'rootbf'}, []),
             ('SB', 'd', {}, [('BF', 'o/r', {'mode': 'ok', 'catch': True, 'name': 'dup'}, [])]),
+            # the same failing query recorded twice with two exception types (missing, then a regular file)
+            ('SB', 'e', {}, [('Q', 'list_dir', 'o/q')]),
+            ('BF', 'o/q', {'mode': 'ok', 'name': 'q'}, []),
+            ('SB', 'f', {}, [('Q', 'list_dir', 'o/q')]),
             ('Q', 'is_file', t1)]
     shared = {}
     prog = Program(eng, body, shared)
@@ -250,6 +254,15 @@ def harness(eng, fam, P):
             conds = []
             for fn, op in c1._files.items():
                 conds.append(op_same(op, c2._files[fn]))
+            # ... and every subbuild record (failure markers included), wherever it sits in the forest
+            subs_ok = True
+            for k_, op in c1._subbuilds.items():
+                other = c2._subbuilds.get(k_)
+                if other is None:
+                    subs_ok = False
+                    break
+                conds.append(op_same(op, other))
+            eng.check('C16.subbuild-records-indexed', subs_ok, sig)
             eng.check('C16.operation-records', L.and_(*conds), sig)
             # nothing written twice, nothing lost: total number of records reachable from the roots
             roots1 = [o for o in list(c1._files.values()) + list(c1._subbuilds.values())]
